@@ -21,15 +21,36 @@ def sh(cmd, cwd=None, timeout=5400, env=ENV):
 
 
 def worktree():
+    """A scratch worktree of /repo's HEAD. With SEED_SLOT=<k> the worktree /tmp/b6seedw-<k> is reused across
+    calls (reset to HEAD each time) so that Go's build and test caches stay warm for unchanged packages."""
+    slot = os.environ.get("SEED_SLOT")
+    head = sh(["git", "-C", "/repo", "rev-parse", "HEAD"])[1].strip()
+    if slot is not None:
+        d = f"/tmp/b6seedw-{slot}"
+        if not os.path.exists(os.path.join(d, ".git")):
+            shutil.rmtree(d, ignore_errors=True)
+            sh(["git", "-C", "/repo", "worktree", "prune"])
+            rc, o = sh(["git", "-C", "/repo", "worktree", "add", "--detach", d, head])
+            if rc != 0:
+                raise SystemExit(o)
+        else:
+            sh(["git", "-C", d, "reset", "-q", "--hard"])
+            sh(["git", "-C", d, "clean", "-fdq"])
+            sh(["git", "-C", d, "checkout", "-q", "--detach", head])
+        return d
     d = tempfile.mkdtemp(prefix="b6seed-")
     os.rmdir(d)
-    rc, o = sh(["git", "-C", "/repo", "worktree", "add", "--detach", d, "HEAD"])
+    rc, o = sh(["git", "-C", "/repo", "worktree", "add", "--detach", d, head])
     if rc != 0:
         raise SystemExit(o)
     return d
 
 
 def drop(d):
+    if os.environ.get("SEED_SLOT") is not None:
+        sh(["git", "-C", d, "reset", "-q", "--hard"])
+        sh(["git", "-C", d, "clean", "-fdq"])
+        return
     sh(["git", "-C", "/repo", "worktree", "remove", "--force", d])
     shutil.rmtree(d, ignore_errors=True)
 
@@ -89,7 +110,10 @@ def confirm(d):
         rc, o = sh(["go", "build"] + pkgs, cwd=mod)
         res["builds"] = rc == 0
         t0 = time.time()
-        rc, o = sh(["go", "test", "-vet=off", "-count=1", "-timeout", "60m"] + pkgs, cwd=mod)
+        # in a reused slot, packages whose inputs are unchanged report the cached result of an identical earlier run
+        cnt = [] if os.environ.get("SEED_SLOT") is not None else ["-count=1"]
+        rc, o = sh(["go", "test", "-vet=off"] + cnt + ["-timeout", "60m"] + pkgs, cwd=mod)
+        res["tests_cached_pkgs"] = o.count("(cached)")
         res["tests_pass"] = rc == 0
         res["tests_s"] = round(time.time() - t0)
         if rc != 0:
